@@ -89,9 +89,7 @@ Definition x_domestic_bank_codes (R : banks) := domestic_bank_codes R.
 Definition x_bic_exists (R : banks) := bic_exists R.
 Definition x_bank_ids (R : banks) := bank_ids R.
 Definition x_bban_bank (R : banks) := bban_bank the_table (bank_code_entries R).
-Definition x_bban_bic (R : banks) (cc b : text) : outcome (option text) :=
-  do key <- bban_lookup_key the_table cc b;
-  match x_from_bank_code R cc key with Ok x => Ok (Some x) | Err _ => Ok None | Crash c => Crash c end.
+Definition x_bban_bic (R : banks) := bban_bic the_env the_bic_cfg iso3166 the_table R.
 Definition x_mk_entry (i : N) (cc code : text) (bic : option text) (prim : bool) (algo : option text) : entry :=
   {| e_id := i; e_cc := cc; e_code := code; e_bic := bic; e_primary := prim; e_algo := algo |}.
 Definition s_wf_bank (en : entry) : bool := wf_bank the_table iso3166 en.
